@@ -43,7 +43,15 @@ class R4:
     pass
 
 
-RT = (R0, R1, R2, R3, R4)
+class R5:
+    pass
+
+
+class R6:
+    pass
+
+
+RT = (R0, R1, R2, R3, R4, R5, R6)
 
 import types as _types  # noqa: E402
 
@@ -75,6 +83,7 @@ class Env:
         self.log: list = []
         self.values: dict = {}
         self.instances: dict = {}
+        self.misc: dict = {}
 
     def ev(self, *e):
         self.log.append(tuple(e))
@@ -123,6 +132,16 @@ async def run_steps(env: Env, node: NodeSpec, phase: str, steps: list):
             _, label, value, name, types = st
             add_resource(value, name, types)
             env.ev("pub", node.idx, label)
+        elif k == "pubfail":
+            # a publication that is refused (ResourceConflict) and handled by the component
+            _, label, value, name, types = st
+            from asphalt.core import ResourceConflict
+
+            try:
+                add_resource(value, name, types)
+                env.ev("pub", node.idx, label)
+            except ResourceConflict:
+                env.ev("refused", node.idx, label)
         elif k == "fac":
             _, label, cb, name, types = st
             add_resource_factory(cb, name, types=types)
@@ -182,6 +201,15 @@ async def run_steps(env: Env, node: NodeSpec, phase: str, steps: list):
             with anyio.move_on_after(st[3] if len(st) > 3 else 0) as scope:
                 await get_resource(t, name)
             env.ev("gave_up", node.idx, scope.cancelled_caught)
+        elif k == "tryget":
+            # ("tryget", label, type, name): a lookup whose failure the component handles itself
+            _, label, t, name = st
+            env.ev("wait_begin", node.idx, label)
+            try:
+                env.values[(node.idx, label)] = await get_resource(t, name)
+            except Exception as e:
+                env.values[(node.idx, label)] = e
+            env.ev("wait_end", node.idx, label)
         elif k == "subctx":
             # ("subctx", label, type, name): open a Context() of our own and look the resource up in it
             _, label, t, name = st
@@ -211,6 +239,50 @@ async def run_steps(env: Env, node: NodeSpec, phase: str, steps: list):
             label = st[1]
             add_teardown_callback(lambda label=label: env.ev("td", label))
             env.ev("td_registered", label)
+        elif k == "tdbase":
+            # a teardown callback that raises a BaseException
+            label = st[1]
+
+            def cb_base(label=label):
+                env.ev("td", label)
+                env.misc[("exc", label)] = st[2](label)
+                raise env.misc[("exc", label)]
+
+            add_teardown_callback(cb_base)
+            env.ev("td_registered", label)
+        elif k == "tdcancel":
+            # an async teardown callback during which the scope around the caller's context is cancelled
+            label = st[1]
+
+            async def cb_cancel(label=label):
+                env.ev("td", label)
+                env.misc["scope"].cancel()
+                await anyio.sleep(0)
+
+            add_teardown_callback(cb_cancel)
+            env.ev("td_registered", label)
+        elif k == "svcnone":
+            # a service task with teardown_action=None ("just wait for it"): it ends on its own once a later-registered callback told it to
+            label = st[1]
+            stop = anyio.Event()
+
+            async def service_none(label=label, stop=stop):
+                env.ev("svc_begin", label)
+                await stop.wait()
+                await anyio.sleep(0)
+                await anyio.sleep(0)
+                env.ev("svc_end", label)
+
+            from asphalt.core import start_service_task
+
+            await start_service_task(service_none, label, teardown_action=None)
+
+            def stopper(label=label, stop=stop):
+                env.ev("td", label + ":stop")
+                stop.set()
+
+            add_teardown_callback(stopper)
+            env.ev("td_registered", label + ":stop")
         elif k == "raise":
             env.ev("raising", node.idx, phase)
             raise st[1]
